@@ -310,8 +310,32 @@ def compare_stub(vectors, orig=None):
 
 
 class _Holder:
+    """symbolic / concrete-model stand-in of a CollectedResult: only the flag array is modelled; any other
+    attribute the real class has makes the function undecided (-> stand-in with real CollectedResult objects)"""
+
     def __init__(self, results):
         self.results = results
+
+    def __getattr__(self, attr):
+        from pyvc.ctx import unknown_attr
+
+        return unknown_attr("ioos_qc.results.CollectedResult", attr, ("results",))
+
+
+def _real_results(arrays):
+    """real CollectedResult objects for the real runs: the entries 2j and 2j+1 belong to the same
+    (stream, module, test) - a test collected twice with different flags, e.g. from two configurations -
+    so the roll-up has to treat its inputs as flag arrays, whatever they are called"""
+    from pyvc import replay
+
+    R = replay.real_module("ioos_qc.results")
+    Q = replay.real_module("ioos_qc.qartod")
+    tests = (Q.gross_range_test, Q.spike_test, Q.flat_line_test)
+    out = []
+    for i, a in enumerate(arrays):
+        f = tests[(i // 2) % len(tests)]
+        out.append(R.CollectedResult(stream_id="s%d" % (i // (2 * len(tests))), package="qartod", test=f.__name__, function=f, results=a))
+    return out
 
 
 class Aggregate(Case):
@@ -356,7 +380,7 @@ class Aggregate(Case):
         else:
             import numpy as np
 
-            hs = [_Holder(np.ma.array([float(_data(x)) for x in v], mask=[_masked(x) for x in v], dtype="float64")) for v in e.vectors]
+            hs = _real_results([np.ma.array([float(_data(x)) for x in v], mask=[_masked(x) for x in v], dtype="float64") for v in e.vectors])
         return mod.aggregate(hs)
 
     def explore_hook(self, sym):
